@@ -82,6 +82,41 @@ def run(ctx, F, cg):
                 else:
                     ctx.ok("R16b", inst, "every path append -> Ok passes %s" % ("/".join(sorted({c.path.rsplit('::', 1)[-1] for c in sw})) or "a storage write"))
     ctx.floor("R16b", "data-bearing WalEntry variants appended by PersistenceManager", len(variants_seen), 6)
+    # ---- R16e: nothing is acknowledged without having been logged ---------------------------------------------
+    ctx.rule("R16e", "a PersistenceManager function that logs acknowledges only what it logged: every path from its entry to a constructed Ok(..) passes the WAL append (an early `return Ok(())` — e.g. 'already stored, nothing to do' decided on part of the record — acknowledges a change that reaches neither the log nor storage)")
+    n16e = 0
+    verified = set()
+    pending = dict(fns)
+    for rnd in range(3):
+        progressed = False
+        for p, r in sorted(pending.items()):
+            b = Body(F.mir(p), r)
+            direct = [c for c in b.calls() if c.path.endswith("wal::Wal::append")]
+            via = [c for c in b.calls() if c.path in verified]
+            if not direct and not via:
+                continue
+            if rnd == 0 and not direct:
+                continue        # helpers with a direct append first, their callers in later rounds
+            del pending[p]
+            progressed = True
+            n16e += 1
+            short = p.replace(PM, "")
+            oks = [(i, line) for i, j, pl, rv, line, exp in b.stmts() if pl[0] == 0 and not pl[1] and rv[0] == "agg" and rv[1].endswith("Result::Ok")]
+            through = {c.bb for c in direct} | {c.bb for c in via}
+            early = [(i, line) for i, line in oks if not b.must_pass(0, i, through)]
+            if early:
+                ctx.violation("R16e", short + "|acknowledged-without-log", where(r, early[0][1]), "%s can return Ok without having appended to the WAL (line %d): the caller acknowledges a write that was neither logged nor stored" % (short, early[0][1]))
+            else:
+                verified.add(p)
+                ctx.ok("R16e", short, "every constructed Ok is behind %s (%d)" % ("the append" if direct else "a call of an appending helper", len(oks)))
+        if not progressed:
+            break
+    # public persist_* entry points that neither append nor call an appending helper
+    for p, r in sorted(pending.items()):
+        short = p.replace(PM, "")
+        if short.startswith("persist_") and r.get("vis") == "pub":
+            ctx.violation("R16e", short + "|never-logs", where(r), "%s neither appends to the WAL nor calls a function that does" % short)
+    ctx.floor("R16e", "PersistenceManager functions that append", n16e, 6)
     # ---- R16d: an update is a read-modify-write that merges ---------------------------------------------------
     ctx.rule("R16d", "a property update writes back the entity it read from storage, and changes its property map only by merging (insert/extend): a wholesale assignment of the map from the argument drops the properties the update did not mention")
     nupd = 0
